@@ -18,7 +18,7 @@ LEVEL = "exploration"
 SHARDS = {"quick": 8, "thorough": 16}
 TIMEOUT_S = {"quick": 600, "thorough": 3000}
 BUDGET_S = {"quick": 100, "thorough": 1500}
-RULE = ("random spec trees to depth 3 (quick, 16000 trees) / 4 (thorough, 16 x 6000) over the combinator grammar "
+RULE = ("random spec trees to depth 3 (quick, 16000 trees) / 4 (thorough, 16 x 20000) over the combinator grammar "
         "(primitives, byte/str variants, coordinates, quantised, tuples, templates, collections prefixed/fixed/greedy, "
         "optional/flagged/length/enum/flag/context switches, bit-fields, typed-bytes wrappers incl. lazy, dataclasses, "
         "adapters, numpy) x 4 values x {little, big} endian x {rich, plain-data} reads x trailing bytes for "
@@ -189,7 +189,7 @@ def _check_program(ctx, pseed, depth, n_values=4):
 
 def run(ctx):
     depth = ctx.pick(3, 4)
-    n_programs = ctx.pick(16000, 6000 * 16)
+    n_programs = ctx.pick(16000, 20000 * 16)
     base = ctx.seed * 10_000_000
     for i in range(n_programs):
         if not ctx.mine(i):
